@@ -1,5 +1,6 @@
 import Fs.Proofs.Vars
 import Fs.Proofs.Params
+import Fs.Model.Split
 /-!
 # C15 — session variables substitute exactly, per connection
 
@@ -164,6 +165,16 @@ theorem C15_same_text_two_connections (w : World) (i j : Nat) (t : List Char) :
 example :
     let w1 := (wstep [[("TOTAL".toList, "0".toList)]] (.set 0 "TOTAL".toList "(0 + 5)".toList)).1
     (wrun w1 [.use 0 "SET total = $total + 7".toList]).2 = [.text (.ok "SET total = (0 + 5) + 7".toList)] := by decide
+
+/-- **An undefined reference raises even in a statement a nop pattern matches** (`call proc($nope)` with
+    `nop_regexes=["^call "]`): inlining comes before the nop decision (`Fs.Split.executePhased` with the variable
+    phase as preparation). -/
+theorem C15_undefined_not_nopped {W R P} (env : Env) (pats : Option (List P)) (m : P → List Char → Bool) (ok : R)
+    (exec : W → List Char → W × Except (List Char) R) (w : W) (cmd : List Char) (n : List Char)
+    (h : Impl.inline env cmd = .undefined n) :
+    Fs.Split.executePhased (fun c => match Impl.inline env c with | .ok t => .ok t | .undefined x => .error x)
+      pats m ok exec w cmd = (w, .error n) := by
+  simp [Fs.Split.executePhased, h]
 
 /-! ## regression witnesses: the pinned code violated the property (repaired in fix-B 91ee0e3) -/
 
